@@ -105,5 +105,10 @@ def mixed_stream(rnd, payloads, n_items=12, well_formed=True, dmg=0.0, crlf_only
         items.insert(rnd.randrange(len(items) + 1), ("trunc", fr[: rnd.randrange(1, len(fr))], None, True))
         items.insert(rnd.randrange(len(items) + 1), ("falsehdr", bytes([0xD3, rnd.choice([4, 0x80, 0xFF])]) + noise(rnd, 3, False), None, True))
         items.insert(rnd.randrange(len(items) + 1), ("falsehdr", b"\xb5" + bytes([rnd.choice([0x61, 0xD3])]), None, True))
+        # a frame that is checksum-consistent but has a reserved header bit set (not a well-formed frame)
+        pl2 = rnd.choice(payloads)
+        hdr = bytes([0xD3, (len(pl2) >> 8) | rnd.choice([0x04, 0x80, 0x44]), len(pl2) & 0xFF])
+        from .decode_rec import crc24q
+        items.insert(rnd.randrange(len(items) + 1), ("reserved", hdr + pl2 + crc24q(hdr + pl2).to_bytes(3, "big"), None, True))
         items.insert(rnd.randrange(len(items) + 1), ("falsehdr", b"$" + bytes([rnd.choice([0x67, 0x31, 0xD3])]), None, True))
     return b"".join(i[1] for i in items), items
